@@ -15,10 +15,10 @@ Definition cfinished (l : loc) : bool := match l_pc l, l_todo l with CDone, [] =
 
 (* at quiescence: every registered context beneath a context whose cancel call won is cancelled, and nothing else is;
    before quiescence: some thread can step (no deadlock on the two mutexes) *)
-Definition ctx_good (same : bool) (infos : list ctxinfo) (c : shared * list loc) : bool :=
+Definition ctx_good (same raise : bool) (infos : list ctxinfo) (c : shared * list loc) : bool :=
   if forallb cfinished (snd c)
   then let won := flat_map l_won (snd c) in reaches_ok infos (fst c) won && no_spurious_ok infos (fst c) won
-  else negb (match succs (cstep same infos) c with [] => true | _ => false end).
+  else negb (match succs (cstep same raise infos) c with [] => true | _ => false end).
 
 Definition cinit (infos : list ctxinfo) (pre : list Z) (progs : list (list Z)) : shared * list loc :=
   (init_shared infos pre, map (fun p => mkL CDone p []) progs).
@@ -28,39 +28,56 @@ Definition S_witness := ([mkci (-1) 1; mkci 0 1; mkci 1 0], [0; 1], [[0; 0]; [1;
 Definition S_other_order := ([mkci (-1) 0; mkci 0 0; mkci 1 1], [0; 1], [[0; 0]; [1; 2]]).
 Definition S_tree4 := ([mkci (-1) 0; mkci 0 1; mkci 1 0; mkci 1 2], [0; 1], [[0; 0]; [1; 2]; [1; 3]]).   (* two binders, one canceller *)
 Definition S_two_cancels := ([mkci (-1) 0; mkci 0 1; mkci 1 0], [0; 1], [[0; 0]; [0; 1]; [1; 2]]).         (* cancels at two levels race with a bind *)
-Definition ctx_scenarios := [S_witness; S_other_order; S_tree4; S_two_cancels].
+Definition S_root_child := ([mkci (-1) 0; mkci 0 1], [0], [[1; 1]; [0; 0]]).                                  (* a child of a parent-less context is bound while that context is cancelled *)
+Definition S_root_two := ([mkci (-1) 0; mkci 0 1; mkci 0 0], [0], [[1; 1]; [0; 0]; [1; 2]]).                  (* two such binders and the canceller *)
+Definition ctx_scenarios := [S_witness; S_other_order; S_tree4; S_two_cancels; S_root_child; S_root_two].
 
 Definition s_infos (s : list ctxinfo * list Z * list (list Z)) := fst (fst s).
 Definition s_init (s : list ctxinfo * list Z * list (list Z)) := cinit (fst (fst s)) (snd (fst s)) (snd s).
 Definition scen_ok (s : list ctxinfo * list Z * list (list Z)) : bool :=
-  explore_all (cstep true (s_infos s)) ccfg_dec (ctx_good true (s_infos s)) (s_init s) 60000.
+  explore_all (cstep true true (s_infos s)) ccfg_dec (ctx_good true true (s_infos s)) (s_init s) 60000.
 
 (* evaluated once when this file is compiled (about two minutes) *)
-Lemma explored_witness : explore_all (cstep true (s_infos S_witness)) ccfg_dec (ctx_good true (s_infos S_witness)) (s_init S_witness) 60000 = true.
+Lemma explored_witness : explore_all (cstep true true (s_infos S_witness)) ccfg_dec (ctx_good true true (s_infos S_witness)) (s_init S_witness) 60000 = true.
 Proof. vm_compute. reflexivity. Qed.
-Lemma explored_other_order : explore_all (cstep true (s_infos S_other_order)) ccfg_dec (ctx_good true (s_infos S_other_order)) (s_init S_other_order) 60000 = true.
+Lemma explored_other_order : explore_all (cstep true true (s_infos S_other_order)) ccfg_dec (ctx_good true true (s_infos S_other_order)) (s_init S_other_order) 60000 = true.
 Proof. vm_compute. reflexivity. Qed.
-Lemma explored_tree4 : explore_all (cstep true (s_infos S_tree4)) ccfg_dec (ctx_good true (s_infos S_tree4)) (s_init S_tree4) 60000 = true.
+Lemma explored_tree4 : explore_all (cstep true true (s_infos S_tree4)) ccfg_dec (ctx_good true true (s_infos S_tree4)) (s_init S_tree4) 60000 = true.
 Proof. vm_compute. reflexivity. Qed.
-Lemma explored_two_cancels : explore_all (cstep true (s_infos S_two_cancels)) ccfg_dec (ctx_good true (s_infos S_two_cancels)) (s_init S_two_cancels) 60000 = true.
+Lemma explored_two_cancels : explore_all (cstep true true (s_infos S_two_cancels)) ccfg_dec (ctx_good true true (s_infos S_two_cancels)) (s_init S_two_cancels) 60000 = true.
 Proof. vm_compute. reflexivity. Qed.
 
-Lemma witness_all c : reach (cstep true (s_infos S_witness)) (s_init S_witness) c -> ctx_good true (s_infos S_witness) c = true.
-Proof. apply (explore_all_sound (cstep true (s_infos S_witness)) ccfg_dec (ctx_good true (s_infos S_witness)) (s_init S_witness) 60000). exact explored_witness. Qed.
-Lemma other_order_all c : reach (cstep true (s_infos S_other_order)) (s_init S_other_order) c -> ctx_good true (s_infos S_other_order) c = true.
-Proof. apply (explore_all_sound (cstep true (s_infos S_other_order)) ccfg_dec (ctx_good true (s_infos S_other_order)) (s_init S_other_order) 60000). exact explored_other_order. Qed.
-Lemma tree4_all c : reach (cstep true (s_infos S_tree4)) (s_init S_tree4) c -> ctx_good true (s_infos S_tree4) c = true.
-Proof. apply (explore_all_sound (cstep true (s_infos S_tree4)) ccfg_dec (ctx_good true (s_infos S_tree4)) (s_init S_tree4) 60000). exact explored_tree4. Qed.
-Lemma two_cancels_all c : reach (cstep true (s_infos S_two_cancels)) (s_init S_two_cancels) c -> ctx_good true (s_infos S_two_cancels) c = true.
-Proof. apply (explore_all_sound (cstep true (s_infos S_two_cancels)) ccfg_dec (ctx_good true (s_infos S_two_cancels)) (s_init S_two_cancels) 60000). exact explored_two_cancels. Qed.
+Lemma explored_root_child : explore_all (cstep true true (s_infos S_root_child)) ccfg_dec (ctx_good true true (s_infos S_root_child)) (s_init S_root_child) 60000 = true.
+Proof. vm_compute. reflexivity. Qed.
+Lemma explored_root_two : explore_all (cstep true true (s_infos S_root_two)) ccfg_dec (ctx_good true true (s_infos S_root_two)) (s_init S_root_two) 60000 = true.
+Proof. vm_compute. reflexivity. Qed.
+
+Lemma witness_all c : reach (cstep true true (s_infos S_witness)) (s_init S_witness) c -> ctx_good true true (s_infos S_witness) c = true.
+Proof. apply (explore_all_sound (cstep true true (s_infos S_witness)) ccfg_dec (ctx_good true true (s_infos S_witness)) (s_init S_witness) 60000). exact explored_witness. Qed.
+Lemma other_order_all c : reach (cstep true true (s_infos S_other_order)) (s_init S_other_order) c -> ctx_good true true (s_infos S_other_order) c = true.
+Proof. apply (explore_all_sound (cstep true true (s_infos S_other_order)) ccfg_dec (ctx_good true true (s_infos S_other_order)) (s_init S_other_order) 60000). exact explored_other_order. Qed.
+Lemma tree4_all c : reach (cstep true true (s_infos S_tree4)) (s_init S_tree4) c -> ctx_good true true (s_infos S_tree4) c = true.
+Proof. apply (explore_all_sound (cstep true true (s_infos S_tree4)) ccfg_dec (ctx_good true true (s_infos S_tree4)) (s_init S_tree4) 60000). exact explored_tree4. Qed.
+Lemma two_cancels_all c : reach (cstep true true (s_infos S_two_cancels)) (s_init S_two_cancels) c -> ctx_good true true (s_infos S_two_cancels) c = true.
+Proof. apply (explore_all_sound (cstep true true (s_infos S_two_cancels)) ccfg_dec (ctx_good true true (s_infos S_two_cancels)) (s_init S_two_cancels) 60000). exact explored_two_cancels. Qed.
+
+Lemma root_child_all c : reach (cstep true true (s_infos S_root_child)) (s_init S_root_child) c -> ctx_good true true (s_infos S_root_child) c = true.
+Proof. apply (explore_all_sound (cstep true true (s_infos S_root_child)) ccfg_dec (ctx_good true true (s_infos S_root_child)) (s_init S_root_child) 60000). exact explored_root_child. Qed.
+Lemma root_two_all c : reach (cstep true true (s_infos S_root_two)) (s_init S_root_two) c -> ctx_good true true (s_infos S_root_two) c = true.
+Proof. apply (explore_all_sound (cstep true true (s_infos S_root_two)) ccfg_dec (ctx_good true true (s_infos S_root_two)) (s_init S_root_two) 60000). exact explored_root_two. Qed.
 
 Theorem ctx_all_interleavings s c :
-  In s ctx_scenarios -> reach (cstep true (s_infos s)) (s_init s) c -> ctx_good true (s_infos s) c = true.
+  In s ctx_scenarios -> reach (cstep true true (s_infos s)) (s_init s) c -> ctx_good true true (s_infos s) c = true.
 Proof.
-  intros Hin. destruct Hin as [<-|[<-|[<-|[<-|[]]]]]; [apply witness_all | apply other_order_all | apply tree4_all | apply two_cancels_all].
+  intros Hin. destruct Hin as [<-|[<-|[<-|[<-|[<-|[<-|[]]]]]]]; [apply witness_all | apply other_order_all | apply tree4_all | apply two_cancels_all | apply root_child_all | apply root_two_all].
 Qed.
 
 (* the protocol as found (binder and propagator lock different mutexes) fails the same exhaustive check on the witness scenario *)
 Lemma two_mutexes_fail_exploration :
-  explore_all (cstep false (s_infos S_witness)) ccfg_dec (ctx_good false (s_infos S_witness)) (s_init S_witness) 60000 = false.
+  explore_all (cstep false false (s_infos S_witness)) ccfg_dec (ctx_good false false (s_infos S_witness)) (s_init S_witness) 60000 = false.
+Proof. vm_compute. reflexivity. Qed.
+
+(* the unconditional copy in the parent-less branch (as found) fails the exhaustive check although the two mutexes are already unified *)
+Lemma root_copy_fails_exploration :
+  explore_all (cstep true false (s_infos S_root_child)) ccfg_dec (ctx_good true false (s_infos S_root_child)) (s_init S_root_child) 60000 = false.
 Proof. vm_compute. reflexivity. Qed.
